@@ -1,6 +1,6 @@
 (* Properties/C07.v — Diff reports exactly the differences, in a deterministic order. *)
 From Coq Require Import List String Bool ZArith Arith.
-From YT Require Import Base.Str Base.KV Base.Sort Model.Doc Model.Dom Model.Equals Model.Diff Proofs.DiffProofs Proofs.DiffOrderProofs.
+From YT Require Import Base.Str Base.KV Base.Sort Model.Doc Model.Dom Model.Equals Model.Diff Proofs.DiffProofs Proofs.DiffOrderProofs Proofs.DiffNilProofs.
 Import ListNotations.
 Local Open Scope list_scope.
 
@@ -39,6 +39,40 @@ Print Assumptions C07_diff_order_independent.
 Theorem C07_diff_self : forall l, wf l = true -> keys_safe l = true -> diff l l = [].
 Proof. exact diff_self. Qed.
 Print Assumptions C07_diff_self.
+
+(* "one Add per leaf": the Adds emitted for a subtree (a key only the left has, the left list of a
+   differing pair of lists, the right node at a kind mismatch) are exactly its flattened leaves, in
+   flatten order, each carrying the leaf value *)
+Theorem C07_adds_are_flattened_leaves : forall n path,
+  adds canonical n path = map add_of (flatten_node n path).
+Proof. exact adds_flatten. Qed.
+Print Assumptions C07_adds_are_flattened_leaves.
+
+(* the remaining clauses of the statement, as equations of the emission: *)
+Theorem C07_scalars : forall o x y path,
+  diff_node o (Leaf x) (Leaf y) path = if scalar_eqb x y then [] else [mkMod MChange path y x].
+Proof. reflexivity. Qed.
+Theorem C07_lists : forall o xs ys path,
+  diff_node o (Lst xs) (Lst ys) path =
+  if equals (Lst xs) (Lst ys) then [] else mkMod MDelete path SNull SNull :: adds o (Lst xs) path.
+Proof. exact diff_node_lst. Qed.
+Theorem C07_kind_mismatch : forall o l r path,
+  match l, r with Con _, Con _ | Lst _, Lst _ | Leaf _, Leaf _ => False | _, _ => True end ->
+  diff_node o l r path = mkMod MDelete path SNull SNull :: adds o r path.
+Proof. exact diff_node_mismatch. Qed.
+Theorem C07_containers : forall o kl kr path,
+  diff_node o (Con kl) (Con kr) path =
+  blocks o 1 path (dn_left_blocks o kr path kl) ++ blocks o 2 path (dn_right kl path kr).
+Proof. intros. rewrite diff_node_con, dn_left_map. reflexivity. Qed.
+Print Assumptions C07_containers.
+
+(* Diff(L,R) = [] only if L and R have the same flattened leaves (Flatten is a map in Go: equality
+   of the sets of (path, value) pairs) *)
+Theorem C07_diff_nil_same_leaves : forall l r,
+  wf l = true -> keys_safe l = true -> wf r = true -> keys_safe r = true ->
+  diff l r = [] -> forall e, In e (flatten l) <-> In e (flatten r).
+Proof. exact diff_nil_flatten. Qed.
+Print Assumptions C07_diff_nil_same_leaves.
 
 (* non-vacuity: all five kinds of difference, with a Delete/Add tie on one path *)
 Example C07_ex :
